@@ -226,7 +226,11 @@ def _own_walk(n: Node) -> Iterator[ast.AST]:
     a = n.ast
     if a is None:
         return
-    if n.kind in ("test", "for", "with", "except", "withexit"):
+    if n.kind == "except":
+        if isinstance(a, ast.ExceptHandler) and a.type is not None:
+            yield from walk_no_nested(a.type)
+        return
+    if n.kind in ("test", "for", "with", "withexit"):
         yield from walk_no_nested(a)
         return
     # simple statement: whole statement
